@@ -1000,6 +1000,14 @@ func (ex *Exec) checkFlows(body *ast.BlockStmt, pname string, callees []string, 
 		ex.obligeAST("flows", pname, pos, false, "no parameter/captured variable named "+pname, nil)
 		return
 	}
+	uses, bad, where := ex.flowUses(body, obj, callees, 0)
+	ex.obligeAST("flows", pname, pos, bad == 0 && uses >= 1, fmt.Sprintf("%s is used %d time(s); uses other than as argument of %v at %v", pname, uses, callees, where), nil)
+}
+
+// flowUses counts the uses of obj in body and those that are not a direct
+// argument of a listed callee (or a listed field read).  Passing obj to a
+// contract-less helper of the same package is followed into that helper.
+func (ex *Exec) flowUses(body *ast.BlockStmt, obj types.Object, callees []string, depth int) (int, int, []string) {
 	allowed := map[token.Pos]bool{}
 	ast.Inspect(body, func(x ast.Node) bool {
 		call, ok := x.(*ast.CallExpr)
@@ -1017,6 +1025,33 @@ func (ex *Exec) checkFlows(body *ast.BlockStmt, pname string, callees []string, 
 					okCallee = true
 				}
 			}
+		}
+		if !okCallee && depth < 3 && ex.U != nil && fn.Pkg() != nil && fn.Pkg().Path() == ex.U.Pkg.PkgPath {
+			// same-package helper without a contract: look inside
+			key := calleeKey(fn)
+			short := key[strings.Index(key, ".")+1:]
+			if fd := ex.U.Funcs[short]; fd != nil && fd.Body != nil && ex.U.FSpecs[short] == nil && fd.Type.Params != nil {
+				var params []types.Object
+				for _, f := range fd.Type.Params.List {
+					for _, n := range f.Names {
+						params = append(params, ex.Info.Defs[n])
+					}
+				}
+				for i, a := range call.Args {
+					if id, ok := ast.Unparen(a).(*ast.Ident); ok && ex.Info.ObjectOf(id) == obj && len(params) > 0 {
+						j := i
+						if j >= len(params) {
+							j = len(params) - 1
+						}
+						if params[j] != nil {
+							if u2, b2, _ := ex.flowUses(fd.Body, params[j], callees, depth+1); b2 == 0 && u2 >= 0 {
+								allowed[id.Pos()] = true
+							}
+						}
+					}
+				}
+			}
+			return true
 		}
 		if !okCallee {
 			return true
@@ -1053,7 +1088,7 @@ func (ex *Exec) checkFlows(body *ast.BlockStmt, pname string, callees []string, 
 		}
 		return true
 	})
-	ex.obligeAST("flows", pname, pos, bad == 0 && uses >= 1, fmt.Sprintf("%s is used %d time(s); uses other than as argument of %v at %v", pname, uses, callees, where), nil)
+	return uses, bad, where
 }
 
 // checkAssignsNone: the body writes no field, package variable, element or
